@@ -41,7 +41,6 @@ ASSUMPTIONS = [
     "virtual clock: wall time enters pygradflow only through pygradflow.timer.time",
     "fixed variables are treated leniently in the stationarity test (the implementation is stricter there)",
 ]
-TAU, ALPHA, LIT = SC.TAU, SC.ALPHA, SC.LIT
 
 
 def strategy(tier):
@@ -119,6 +118,7 @@ def check(case):
     labels.append(f"status:{st_.name}")
     r = Ref(spec)
     vw, cw, ow = S.weights_of(solver, spec)
+    TAU, ALPHA, LIT = params.opt_tol, params.active_tol, params.local_infeas_tol
     x = np.asarray(res.x, dtype=float)
     # iteration-limit equivalence holds for every returned status
     if (st_ == SolverStatus.IterationLimit) != (res.iterations == limit):
